@@ -57,11 +57,14 @@ def abs_type(type_obj, dialect):
     return [FAM_CODE[m.group(1)], args]
 
 
-def tn(n): return "t%d" % (n % 100)          # table code = 100 * schema + local name (schema 0: the default schema)
+VT_LOCAL = 99                                 # local name 99 in an ATTACHED schema is spelled like alembic's version table
+def tn(n): return "alembic_version" if (n >= 100 and n % 100 == VT_LOCAL) else "t%d" % (n % 100)   # table code = 100 * schema + local name (schema 0: the default schema)
 def sch(n): return None if n < 100 else "s%d" % (n // 100)
 
 
 def tcode(name, schema=None):
+    if name == "alembic_version" and schema:
+        return VT_LOCAL + 100 * un(schema, "s")
     return un(name, "t") + (0 if not schema else 100 * un(schema, "s"))
 
 
@@ -474,7 +477,8 @@ def _sig(k): return frozenset(k[2])
 DEFAULTS = [["lit", "5"], ["lit", "0"], ["lit", "abc"], ["lit", "x y"], ["lit", "1.5"], ["lit", "a-b, c"],
             ["expr", "1.5"], ["expr", "5"], ["expr", "0"], ["expr", "CURRENT_TIMESTAMP"], ["expr", "-1"], ["expr", "NULL"],
             ["expr", "1 + 2"], ["expr", "'q'"], ["expr", "'a b'"], ["expr", "'5'"], ["expr", "(1 + 2)"], ["expr", "(5)"],
-            ["expr", "(CURRENT_DATE)"]]
+            ["expr", "(CURRENT_DATE)"],
+            ["expr", "('q')"], ["expr", "('a b')"]]    # a parenthesised text that begins and ends with a string literal (order of un-wrapping)
 # string defaults on which the unchanged code reports a spurious difference (finding C06-sqlite-string-default-not-quiet)
 BAD_DEFAULTS = [["lit", "(a)"], ["lit", ""], ["lit", "it's"], ["lit", "'q'"]]
 
